@@ -87,11 +87,6 @@ structure St (C : Codec) where
   inEof : Bool := false
   /-- a loop whose termination depends on the codec ran out of fuel (never on the real zlib) -/
   diverged : Bool := false
-  /-- ghost: did the last deflate call made for a flush report completion (Z_OK with room left,
-      or Z_BUF_ERROR = nothing to flush)? -/
-  flushDone : Bool := true
-  /-- ghost: did the last inflate call return with room left in the caller's buffer? -/
-  readDone : Bool := true
   /-- allocation inventory of compression_init: the record and the two buffers -/
   recLive : Bool := true
   cbufLive : Bool := true
@@ -103,9 +98,10 @@ variable {C : Codec}
 def init (C : Codec) (dontReset : Bool) : St C :=
   { z := C.dinit, zi := C.iinit, dontReset := dontReset }
 
-/-- conn_disconnect: state, notification (no check that it was connected) -/
+/-- conn_disconnect: state and notification; returns at once when the connection is already
+    disconnected (the application is told exactly once) -/
 def disconnect (s : St C) : St C :=
-  { s with connected := false, disc := s.disc + 1 }
+  { s with connected := false, disc := if s.connected then s.disc + 1 else s.disc }
 
 def popSched : List Accept → Accept × List Accept
   | [] => (.all, [])
@@ -124,13 +120,14 @@ def lowerWrite (s : St C) (b : Bytes) : St C × Int :=
   -- conn_interface_write: `ret < 0 && !recoverable(get_error)` ⇒ conn->error = get_error
   if r < 0 ∧ recoverable lerr = false then ({ s with error := lerr }, r) else (s, r)
 
-/-- _try_compressed_write_to_network -/
+/-- _try_compressed_write_to_network: what the lower layer did not accept stays at the start of
+    the staging buffer (memmove) -/
 def tryWrite (s : St C) (force : Bool) : St C × Int :=
   let len := s.out.length
   if (len == bufSize || force) && decide (len > 0) then
     let r := lowerWrite s s.out
     if r.2 < 0 then r
-    else ({ r.1 with out := [] }, r.2)   -- next_out = buffer, whatever the lower layer accepted
+    else ({ r.1 with out := r.1.out.drop r.2.toNat }, r.2)
   else (s, 0)
 
 /-- how the do/while of _compression_write is left -/
@@ -144,7 +141,9 @@ def cwLoop : Nat → St C → Bytes → Nat → Int → LoopOut C
   | 0, s, _, _, _ => .fuel s
   | fuel + 1, s, inp, consumed, flush =>
     let t := tryWrite s false
-    if t.2 < 0 then .ret t.1 t.2
+    if t.2 < 0 ∨ bufSize - t.1.out.length = 0 then
+      -- the lower layer would block: report how much of the caller's data deflate has taken
+      .ret t.1 (if 0 < consumed ∨ 0 ≤ t.2 then (consumed : Int) else t.2)
     else
       let s := t.1
       let room := bufSize - s.out.length
@@ -152,23 +151,24 @@ def cwLoop : Nat → St C → Bytes → Nat → Int → LoopOut C
       let n := d.2.1
       let o := d.2.2.1
       let rc := d.2.2.2
-      let s := { s with z := d.1, out := s.out ++ o,
-                        flushDone := decide (flush ≠ 0) &&
-                          ((rc == Gen.Zl.zOk && decide (o.length < room)) || rc == Gen.Zl.zBufError) }
+      let s := { s with z := d.1, out := s.out ++ o }
       if rc = Gen.Zl.zStreamEnd then .done s rc
       else if flush ≠ 0 ∧ rc = Gen.Zl.zBufError then .done s rc
       else if rc ≠ Gen.Zl.zOk then .ret (disconnect { s with error := rc }) rc
-      else if (inp.drop n).isEmpty then .done s ((consumed + n : Nat) : Int)
+      else if (inp.drop n).isEmpty ∧ ¬ (flush ≠ 0 ∧ bufSize - s.out.length = 0) then
+        .done s ((consumed + n : Nat) : Int)
       else cwLoop fuel s (inp.drop n) (consumed + n) flush
 
 /-- _compression_write -/
 def compressionWrite (fuel : Nat) (s : St C) (inp : Bytes) (flush : Int) : St C × Int :=
-  match cwLoop fuel s inp 0 flush with
-  | .ret s r => (s, r)
-  | .fuel s => ({ s with diverged := true }, -99)
-  | .done s r =>
-    if flush ≠ 0 then tryWrite s true     -- `ret = _try…(conn, 1); if (ret < 0) return ret; return ret`
-    else (s, r)
+  if inp.isEmpty ∧ flush = 0 then (s, 0)      -- `if (len == 0 && !flush) return 0;`
+  else
+    match cwLoop fuel s inp 0 flush with
+    | .ret s r => (s, r)
+    | .fuel s => ({ s with diverged := true }, -99)
+    | .done s r =>
+      if flush ≠ 0 then tryWrite s true     -- `ret = _try…(conn, 1); if (ret < 0) return ret; return ret`
+      else (s, r)
 
 /-- compression_flush -/
 def compressionFlush (fuel : Nat) (s : St C) : St C × Int :=
@@ -221,29 +221,38 @@ def decompInput (s : St C) (fresh : Bytes) : Bytes :=
   | none => fresh
   | some p => p
 
-/-- _conn_decompress; `fresh` = the c_len bytes just read into decompression.buffer -/
+/-- _conn_decompress; `fresh` = the c_len bytes just read into decompression.buffer.  `next_in`
+    is cleared only when the input is used up AND inflate had room left (it may hold more
+    plaintext otherwise), or when inflate reports that nothing more can be got out of it -/
 def connDecompress (s : St C) (fresh : Bytes) (len : Nat) : St C × Int × Bytes :=
   let inp := decompInput s fresh
   let d := C.inflate s.zi inp len
   let n := d.2.1
   let o := d.2.2.1
   let rc := d.2.2.2
-  let s := { s with zi := d.1, readDone := decide (o.length < len) }
+  let s := { s with zi := d.1 }
   if rc = Gen.Zl.zStreamEnd ∨ rc = Gen.Zl.zOk then
-    ({ s with inPend := if (inp.drop n).isEmpty then none else some (inp.drop n) },
+    ({ s with inPend := if (inp.drop n).isEmpty ∧ o.length < len then none else some (inp.drop n) },
      (o.length : Int), o)
   else if rc = Gen.Zl.zBufError then
-    ({ s with inPend := some (inp.drop n) }, 0, [])
+    ({ s with inPend := if (inp.drop n).isEmpty then none else some (inp.drop n) }, 0, [])
   else
     (disconnect { s with inPend := some (inp.drop n), error := rc }, 0, [])
 
-/-- compression_read -/
-def compressionRead (s : St C) (len : Nat) : St C × Int × Bytes :=
-  match s.inPend with
-  | some _ => connDecompress s [] len
-  | none =>
-    let r := lowerRead s bufSize
-    if r.2.1 > 0 then connDecompress r.1 r.2.2 len else (r.1, r.2.1, [])
+/-- compression_read: loops while the input yields no plaintext and the connection is up -/
+def compressionRead : Nat → St C → Nat → St C × Int × Bytes
+  | 0, s, _ => ({ s with diverged := true }, 0, [])
+  | fuel + 1, s, len =>
+    match s.inPend with
+    | some _ =>
+      let r := connDecompress s [] len
+      if r.2.1 ≠ 0 ∨ r.1.connected = false then r else compressionRead fuel r.1 len
+    | none =>
+      let l := lowerRead s bufSize
+      if l.2.1 ≤ 0 then (l.1, l.2.1, [])
+      else
+        let r := connDecompress l.1 l.2.2 len
+        if r.2.1 ≠ 0 ∨ r.1.connected = false then r else compressionRead fuel r.1 len
 
 /-- compression_pending (the lower transport has no pending notion: conn_int_nop) -/
 def pending (s : St C) : Bool := s.inPend.isSome
@@ -252,26 +261,26 @@ def pending (s : St C) : Bool := s.inPend.isSome
 def readable (s : St C) : Bool := !s.inq.isEmpty || s.inEof
 
 /-- one pass through the CONNECTED read branch of xmpp_run_once (no TLS): the plaintext handed to
-    parser_feed, and the value `intf->read` returned -/
-def evRead (s : St C) : St C × Int × Bytes :=
-  let r := compressionRead s msgBufSize
+    parser_feed, and the value `intf->read` returned.  A result ≤ 0 is an unrecoverable error,
+    or — only if it is 0 — "closed by remote host"; a recoverable -1 changes nothing. -/
+def evRead (fuel : Nat) (s : St C) : St C × Int × Bytes :=
+  let r := compressionRead fuel s msgBufSize
   if r.2.1 > 0 then r
   else
     let s := r.1
     let err := s.lerr            -- intf->get_error = compression_get_error = the lower one
     if recoverable err = false then (disconnect { s with error := err }, r.2.1, [])
-    else (disconnect { s with error := Gen.Zl.eConnReset }, r.2.1, [])   -- "Socket closed by remote host."
+    else if r.2.1 = 0 then (disconnect { s with error := Gen.Zl.eConnReset }, r.2.1, [])
+    else (s, r.2.1, [])
 
 /-- one whole xmpp_run_once(ctx, 0) for this connection (no TLS): the send half, then "find
     events to watch / select": the socket is readable iff the lower transport has unread bytes or
-    saw EOF.  When select() reports nothing the function returns ("no events happened") BEFORE it
-    looks at `intf->pending`, so input still waiting in the decompression buffer is only picked up
-    together with the next socket event.  Returns the plaintext handed to parser_feed and the
-    result of `intf->read` if it was called. -/
-def runOnce (wfuel : Nat) (s : St C) : St C × Bytes × List Int :=
-  let s := runOnceSend wfuel s
-  if s.connected && readable s then
-    let r := evRead s
+    saw EOF; input waiting in an interface's own buffer (`intf->pending`) counts as an event too.
+    Returns the plaintext handed to parser_feed and the result of `intf->read` if it was called. -/
+def runOnce (fuel : Nat) (s : St C) : St C × Bytes × List Int :=
+  let s := runOnceSend fuel s
+  if s.connected && (readable s || pending s) then
+    let r := evRead fuel s
     (r.1, r.2.2, [r.2.1])
   else (s, [], [])
 
@@ -292,8 +301,8 @@ def rxFragment (wfuel fuel : Nat) (s : St C) (frag : Bytes) : St C × Bytes × L
 
 /-! ### teardown -/
 
-/-- compression_free (called from _conn_reset): frees the two buffers; the record itself only if
-    the code does so (regenerated from the source) -/
+/-- compression_free (called from _conn_reset): frees the two buffers and — as the extractor
+    reads from the `strophe_free*` calls of the function — the record itself -/
 def compressionFree (s : St C) : St C :=
   { s with cbufLive := false, dbufLive := false,
            recLive := if Gen.Zl.compressionFreeFreesRecord then false else s.recLive }
